@@ -98,7 +98,10 @@ pub fn abs_apply(sh: &Shape, d: &mut D, op: &Op, ret: &str, cap: Option<usize>) 
         Op::Assign(x) => { if ret == "ok" { *d = x.strip_def(); } None }
         Op::Last(o) => match (sh, d) {
             (Shape::UStruct(fs), D::Struct(_, l)) => abs_apply(fs.last().unwrap(), l, o, ret, None),
-            _ => panic!("abs: not a struct"),
+            // the unsized last field of the current variant; a variant without one leaves the value alone
+            (Shape::UEnum(_, vs), D::Enum(k, _, Some(l))) if !vs[*k].last().map(|f| f.is_sized()).unwrap_or(true) => abs_apply(vs[*k].last().unwrap(), l, o, ret, None),
+            (Shape::UEnum(..), D::Enum(..)) => Some("novariant".into()),
+            _ => panic!("abs: not a struct / enum"),
         },
         Op::SetField(v, i, x) => match d {
             D::Struct(f, _) => { f[*i] = x.clone(); Some("ok".into()) }
@@ -181,6 +184,16 @@ pub fn gen_op(sh: &Shape, cur: &D, rng: &mut Rng, depth: usize) -> Op {
         Shape::UEnum(_, vs) => {
             // mostly the current variant; now and then another one (the accessor must then leave the value alone)
             let cur_v = match cur { D::Enum(k, _, _) => *k, _ => 0 };
+            // an operation on the unsized last field of the current variant (top level only: the driver reads the variant from the value's tag)
+            if depth == 0 && rng.chance(1, 2) {
+                if let D::Enum(k, _, Some(l)) = cur {
+                    if let Some(lastsh) = vs[*k].last() {
+                        if matches!(lastsh, Shape::Vec(..) | Shape::Str(..) | Shape::Flex(..)) { return Op::Last(Box::new(gen_op(lastsh, l, rng, depth + 1))); }
+                    }
+                }
+            }
+            // … and now and then on a variant that has none: the value must be left alone
+            if depth == 0 && rng.chance(1, 8) { if let D::Enum(_, _, None) = cur { return Op::Last(Box::new(Op::Clear)); } }
             let v = if rng.chance(5, 6) { cur_v } else { rng.below(vs.len() as u64) as usize };
             let sized: Vec<usize> = vs[v].iter().enumerate().filter(|(_, f)| f.is_sized()).map(|(j, _)| j).collect();
             if sized.is_empty() { Op::Assign(cur.clone()) } else { let i = sized[rng.below(sized.len() as u64) as usize]; Op::SetField(v, i, gen_sized(&vs[v][i], rng)) }
